@@ -35,7 +35,8 @@ EXTENDS Integers, Sequences, FiniteSets, TLC
 
 CONSTANTS Deviations,   \* named departures of the code from the design
           Mode,         \* "rid" | "trace" | "capture" | "trace_log": which slice of the option space Init enumerates
-          MaxHops, MaxReq, LimitMax, MaxScript
+          MaxHops, MaxReq, LimitMax, MaxScript,
+          MaxDiscards   \* number of DiscardFromTrace patterns explored by the trace slice (0..MaxDiscards)
 
 FreshLen == 8           \* shortID(): 6 random bytes, base64 raw url encoding
 
@@ -67,9 +68,13 @@ ForwardHeader(c) == IF TrustedHeader(c) = "custom" THEN "custom" ELSE "std"
 
 Transports == {"http", "grpc_unary", "grpc_stream"}
 
-Cfg(tr, trust, lim, sm, pct, ss, nd, d, fw) ==
+\* forward: the handler passes its request id on under the header the next server trusts;
+\* fwdmd:   the handler forwards what it received on its outgoing call before the traced client runs
+\*          (gRPC: NewOutgoingContext(ctx, incoming metadata); HTTP: the inbound TraceID / ParentSpanID
+\*          headers copied onto the outgoing request)
+Cfg(tr, trust, lim, sm, pct, ss, nd, d, fw, fm) ==
   [transport |-> tr, trust |-> trust, limit |-> lim, smode |-> sm, pct |-> pct, ssize |-> ss,
-   discards |-> nd, depth |-> d, forward |-> fw]
+   discards |-> nd, depth |-> d, forward |-> fw, fwdmd |-> fm]
 Req(at, l, t, p, dp, sc) == [ridAt |-> at, ridLen |-> l, trace |-> t, parent |-> p, dpath |-> dp, script |-> sc]
 
 ---------------------------------------------------------------------------
@@ -98,21 +103,22 @@ InitRid ==
   \E tr \in Transports : \E trust \in TrustModes(tr) : \E lim \in 0..LimitMax : \E d \in 1..MaxHops :
   \E fw \in (IF d = 1 THEN {FALSE} ELSE BOOLEAN) : \E at \in {"none", "std", "custom"} :
   \E l \in (IF at = "none" THEN {0} ELSE 0..(LimitMax + 1)) : \E t \in BOOLEAN :
-    /\ cfg = Cfg(tr, trust, lim, "default", 100, 1, 0, d, fw)
+    /\ cfg = Cfg(tr, trust, lim, "default", 100, 1, 0, d, fw, FALSE)
     /\ reqs = <<RidReq(tr, at, l, t)>>
 
 \* slice "trace": sampling options x discards x chain depth x histories of 1..MaxReq requests
 TraceReqsWith(sc) == {Req("none", 0, t, p, dp, sc) : t \in BOOLEAN, p \in BOOLEAN, dp \in BOOLEAN}
 InitTrace ==
-  \E tr \in Transports : \E s \in SamplingSpace : \E nd \in 0..2 : \E d \in 1..MaxHops : \E n \in 1..MaxReq :
+  \E tr \in Transports : \E s \in SamplingSpace : \E nd \in 0..MaxDiscards : \E d \in 1..MaxHops : \E n \in 1..MaxReq :
+  \E fm \in (IF d = 1 THEN {FALSE} ELSE BOOLEAN) :
   \E r \in [1..n -> TraceReqsWith(IF tr = "http" THEN PlainScript ELSE <<>>)] :
-    /\ cfg = Cfg(tr, "none", 0, s[1], s[2], s[3], nd, d, FALSE)
+    /\ cfg = Cfg(tr, "none", 0, s[1], s[2], s[3], nd, d, FALSE, fm)
     /\ reqs = r
 
 \* slice "capture": every handler script up to MaxScript operations (HTTP)
 InitCapture ==
   \E d \in 1..(IF MaxHops > 2 THEN 2 ELSE MaxHops) : \E sc \in Scripts(MaxScript) :
-    /\ cfg = Cfg("http", "none", 0, "default", 100, 1, 0, d, FALSE)
+    /\ cfg = Cfg("http", "none", 0, "default", 100, 1, 0, d, FALSE, FALSE)
     /\ reqs = <<Req("none", 0, FALSE, FALSE, FALSE, sc)>>
 
 Idle == /\ q = 0 /\ hop = 0 /\ wire = NoWire
@@ -204,16 +210,27 @@ Handler == /\ pc = "handler"
            /\ k' = 1 /\ cap' = Cap0 /\ rec' = Rec0
            /\ UNCHANGED <<cfg, reqs, q, hop, wire, ctx, scount, nR, nT, nS, fwds, caps>>
 
-Outgoing ==
+\* what the handler puts on its outgoing call before the traced client runs
+Forwarded ==
   LET c == ctx[hop]
       fh == ForwardHeader(cfg)
-      traced == c.trace # "none" IN
-  [rid |-> IF cfg.forward /\ fh = "std" THEN c.rid ELSE NoRid,
-   ridc |-> IF cfg.forward /\ fh = "custom" THEN c.rid ELSE NoRid,
-   trace |-> IF "client.drops_trace" \in Deviations THEN "none" ELSE c.trace,
-   parent |-> IF ~traced THEN "none"
-              ELSE IF "client.forwards_parent_not_span" \in Deviations THEN c.parent ELSE c.span,
+      allmd == cfg.fwdmd /\ cfg.transport # "http" IN     \* gRPC: the whole incoming metadata (x-request-id was rewritten)
+  [rid |-> IF (cfg.forward /\ fh = "std") \/ allmd THEN c.rid ELSE NoRid,
+   ridc |-> IF cfg.forward /\ fh = "custom" THEN c.rid ELSE IF allmd THEN wire.ridc ELSE NoRid,
+   trace |-> IF cfg.fwdmd THEN wire.trace ELSE "none",
+   parent |-> IF cfg.fwdmd THEN wire.parent ELSE "none",
    dpath |-> wire.dpath]
+\* tracedDoer.Do / setTrace: the CURRENT trace and span replace whatever is there
+Outgoing ==
+  LET c == ctx[hop]
+      f == Forwarded
+      traced == c.trace # "none"
+      mine == IF "client.forwards_parent_not_span" \in Deviations THEN c.parent ELSE c.span
+      keep == "client.appends_to_forwarded_metadata" \in Deviations    \* appended after the forwarded values: the first one wins
+  IN
+  [f EXCEPT !.trace = IF "client.drops_trace" \in Deviations THEN "none"
+                      ELSE IF ~traced \/ (keep /\ f.trace # "none") THEN f.trace ELSE c.trace,
+            !.parent = IF ~traced \/ (keep /\ f.parent # "none") THEN f.parent ELSE mine]
 TracedClient == /\ pc = "client"
                 /\ wire' = Outgoing
                 /\ fwds' = Append(fwds, [q |-> q, hop |-> hop, out |-> Outgoing])
@@ -318,7 +335,8 @@ ForwardMatchesContext == \A i \in 1..Len(fwds) :
   LET f == fwds[i]
       hs == {j \in HopIdx : hops[j].q = f.q /\ hops[j].hop = f.hop} IN
   \A j \in hs : /\ f.out.trace = hops[j].trace
-                /\ f.out.parent = hops[j].span
+                /\ f.out.parent = IF Traced(hops[j]) THEN hops[j].span
+                                  ELSE IF cfg.fwdmd THEN hops[j].in.parent ELSE "none"
 CaptureMatchesWritten == \A i \in 1..Len(caps) :
   /\ caps[i].by = caps[i].rby /\ caps[i].lby = caps[i].rby
   /\ (caps[i].wrote => caps[i].st = caps[i].rst /\ caps[i].lst = caps[i].rst)
